@@ -7,6 +7,20 @@ HERE = os.path.dirname(os.path.dirname(os.path.abspath(__file__)))
 CMD = "PYTHONPATH=/repo/src PYTHONHASHSEED=0 /venv/bin/python harness/check.py %s --tier %s"
 
 CHECKS = {
+    "C11": dict(
+        engine="E2-handler",
+        technique="Coq proof (decision table of build_trigger for every argument map: iff-characterisation of each action kind, carried settings, placement, one action per kind; an uninterpretable tracepoint changes nothing else; merged response keeps all actions up to permutation) + EXHAUSTIVE in-Coq correspondence over the interacting keys",
+        text="10 Coq theorems over TriggerTable.v, for every argument map, watches and metrics: a snapshot action iff collection "
+             "is not switched off (carrying log message, watches, frame/stack type), a log action iff a message is given and "
+             "collection is off, one metric action with every definition iff any, a span action iff requested, every action "
+             "with the tracepoint's own id/condition/fire count/fire period, at most one action per kind, location per "
+             "stage/method_name/span; a response with an uninterpretable member converts as if it were absent, and what is "
+             "installed at a location is (up to order) the actions of all interpretable members placed there. Tied to the "
+             "code by the exhaustive 1024-row table through the real build_trigger, response lists through convert_response, "
+             "and add_custom with an unknown stage.",
+        note="Trusted: Coq kernel+VM; harness; argument values are text; nameless method locations never match (observation, "
+             "outside the statement); capture stages are not copied into the action config by the builders (observation).",
+        design="5-C11"),
     "C16": dict(
         engine="E2-handler",
         technique="Coq proof (print/scan round trip of the brace scanner: render(print segs) = '[deep] ' ++ texts, for all segment lists and all frame states; literal templates; one message per collected hit) + in-Coq correspondence with the real log action and with CPython's string.Formatter scanner",
@@ -182,8 +196,8 @@ def main():
         engines=[
             dict(name="E1-collector", path="coq/theories/Collector.v coq/theories/CollectorProofs.v coq/theories/Frames.v harness/lib/e1.py harness/lib/objgen.py harness/props/c02.py harness/props/c05.py harness/props/c06.py harness/props/c07.py",
                  serves_properties=["C02", "C05", "C06", "C07"], kind_free_text="Gallina work-list collector over abstract heaps; step invariants; in-Coq correspondence on generated object graphs"),
-            dict(name="E2-handler", path="coq/theories/Limiter.v coq/theories/LimiterProofs.v coq/theories/Cond.v harness/lib/e2.py harness/props/c04.py harness/props/c10.py coq/theories/Match.v coq/theories/MatchProofs.v coq/theories/Callbacks.v coq/theories/CallbacksProofs.v harness/props/c03.py harness/props/c15.py coq/theories/Template.v coq/theories/TemplateProofs.v coq/theories/Metric.v coq/theories/MetricProofs.v harness/props/c16.py harness/props/c17.py",
-                 serves_properties=["C03", "C04", "C10", "C15", "C16", "C17"], kind_free_text="Gallina models of the rate limiter (sequential and interleaved), condition gate and scope; real TriggerHandler with recording plugins, virtual clock, synthetic frames, forced schedules"),
+            dict(name="E2-handler", path="coq/theories/Limiter.v coq/theories/LimiterProofs.v coq/theories/Cond.v harness/lib/e2.py harness/props/c04.py harness/props/c10.py coq/theories/Match.v coq/theories/MatchProofs.v coq/theories/Callbacks.v coq/theories/CallbacksProofs.v harness/props/c03.py harness/props/c15.py coq/theories/Template.v coq/theories/TemplateProofs.v coq/theories/Metric.v coq/theories/MetricProofs.v harness/props/c16.py harness/props/c17.py coq/theories/TriggerTable.v coq/theories/TriggerTableProofs.v harness/props/c11.py",
+                 serves_properties=["C03", "C04", "C10", "C11", "C15", "C16", "C17"], kind_free_text="Gallina models of the rate limiter (sequential and interleaved), condition gate and scope; real TriggerHandler with recording plugins, virtual clock, synthetic frames, forced schedules"),
             dict(name="E4-stores", path="coq/theories/Attrs.v coq/theories/AttrsProofs.v coq/theories/Config.v harness/props/c18.py harness/props/c19.py",
                  serves_properties=["C18", "C19"], kind_free_text="Gallina models of the attribute store, resources, configuration resolution; proofs; in-Coq correspondence"),
         ],
